@@ -29,7 +29,7 @@ CHECKS["C14"] = dict(
 CHECKS["C09"] = dict(
   level="fault_enumeration", engine="sched",
   technique="exhaustive crash-point, fault-position, tampering enumeration plus delay-bounded exhaustive schedule exploration of store/load processes under a controlled scheduler",
-  text="The real module data store (dir and tar layouts) on a real directory: (1) the directory is snapshotted at every storage step and disk hook point of a store and every snapshot is recovered from (load in all accessor orders, store again, load), plus real SIGKILLs of a subprocess at every hook point; (2) every single (thorough: pair of) failing put/close/disk write/short write/rename/lock operation; (3) store/load 'processes' with separate store objects sharing the directory and a reader-writer lock table run as threads of a cooperative scheduler: every schedule with at most 3 (thorough 4) deviations from the default schedule, also starting from a crashed directory and with an injected write failure as an environment choice, oracle at every load and on the quiescent state; (4) every single-file tampering of a complete entry incl. every byte of module.yaml. Oracle: a load is a miss, exactly the pinned content (files, dependency digests, v1 side files), or an error - never other content; failed/interrupted stores are repaired by a later store; an acknowledged store leaves a loadable entry.",
+  text="The real module data store (dir and tar layouts) on a real directory: (1) the directory is snapshotted at every storage step and disk hook point of a store and every snapshot is recovered from (load in all accessor orders, store again, load), plus real SIGKILLs of a subprocess at every hook point; (2) every single (thorough: pair of) failing put/close/disk write/short write/rename/lock operation; (3) store/load 'processes' with separate store objects sharing the directory and a reader-writer lock table run as threads of a cooperative scheduler: every schedule with at most 3 (thorough 4) deviations from the default schedule, also starting from a crashed directory and with an injected write failure as an environment choice, oracle at every load and on the quiescent state; (4) every single-file tampering of a complete entry incl. every byte of module.yaml, and of a commit-store entry (every byte, every well-formed document with one field removed/blanked, swapped digest type) through both lookup routes. Oracle: a load is a miss, exactly the pinned content (files, dependency digests, v1 side files), or an error - never other content; failed/interrupted stores are repaired by a later store; an acknowledged store leaves a loadable entry.",
   note="Crash = process death (directory content at that instant; no fsync/power-loss model). Processes are goroutines with separate objects; scheduling points are bucket-level operations and lock operations (writes into private temp files are invisible and not points); delay bounding rather than full preemption bounding; the real flock locker is checked separately for the RW semantics the lock table assumes.",
   design="3/C09")
 CHECKS["C19"] = dict(
